@@ -22,7 +22,8 @@ PLAN = {
     'quick': [(2, 4, 3, (-1, 0, 1)), (5, 5, 2, (0, 1))],
     'thorough': [(2, 5, 3, (-1, 0, 1)), (6, 6, 2, (0, 1))],
 }
-SITUATIONS = ('none', 'ext-e', 'int-e', 'ext-g', 'int-e+ext-f')
+# the last one leaves a never-due internal event behind: it comes last for every configuration
+SITUATIONS = ('none', 'ext-e', 'int-e', 'ext-g', 'int-e+ext-f', 'int-delayed+ext-e')
 
 
 def queue_situation(it, sit):
@@ -44,6 +45,12 @@ def queue_situation(it, sit):
     if sit == 'int-e+ext-f':
         it.queue(Event('f', k=8))
         ev = InternalEvent('e', k=7)
+        it.queue(ev)
+        return 'e', ev
+    if sit == 'int-delayed+ext-e':
+        # an internal event that is not due yet must not hide the external event that is
+        it.queue(InternalEvent('late', delay=1000))
+        ev = Event('e', k=7)
         it.queue(ev)
         return 'e', ev
     raise ValueError(sit)
